@@ -60,7 +60,7 @@ func runC10(c *core.Ctx) {
 	c10Errors(c)
 	c10f(c)
 	c10g(c)
-	hdrCRC :=func(v ssa.Value) bool { return an.MentionsField(v, "Header", "Crc32") }
+	hdrCRC := func(v ssa.Value) bool { return an.MentionsField(v, "Header", "Crc32") }
 	if fn := c.Fn("C10.a", "snapshot", "(*FullSink).Close"); fn != nil {
 		succ := map[ssa.Instruction]bool{}
 		for _, r := range an.SuccessReturns(fn) {
